@@ -109,9 +109,10 @@ func (s c05Script) String() string {
 }
 
 func runC05(c *Ctx) {
-	c.Rule("function level: every code 0..40 and large values through HTTPStatusCode/WSStatusCode, every single byte and generated strings through encodeGrpcMessage; API level: handler-returned statuses over HTTP/JSON, HTTP/protobuf, Twirp, gRPC (grpc-go client), gRPC-web, gRPC-web-text, WebSocket, before any reply and after k replies. A case is non-trivial when it is not the empty/OK input; distinct by kind+input.")
+	c.Rule("protocol dispatch: Content-Types (the protocol ones, near misses, mutations) x HTTP/1, 2, 3 through Mux.ServeHTTP and isWebRequest against the model and the protocol definitions; function level: every code 0..40 and large values through HTTPStatusCode/WSStatusCode, every single byte and generated strings through encodeGrpcMessage; API level: handler-returned statuses over HTTP/JSON, HTTP/protobuf, Twirp, gRPC (grpc-go client), gRPC-web, gRPC-web-text, WebSocket, before any reply and after k replies. A case is non-trivial when it is not the empty/OK input; distinct by kind+input.")
 	c.Assume("grpc-go client, protojson, gobwas/ws client and encoding/base64 are the reference decoders")
 
+	c05Dispatch(c)
 	// ---- function level: code tables
 	cs := []uint32{}
 	for i := uint32(0); i <= 40; i++ {
